@@ -10,7 +10,7 @@ import numpy as np
 import sympy as sp
 
 from . import sym
-from .sym import A, S, T, Shape, Unsupported, ShapeError, lift, num, boo, ite, Hooks, ONE
+from .sym import A, S, T, Shape, EA, Unsupported, ShapeError, lift, num, boo, ite, Hooks, ONE
 
 
 class LenS(S):
@@ -52,6 +52,8 @@ def _ew(f, defined=None):
         k.pop("out", None)
         if hasattr(x, "__nss_apply__"):
             return x.__nss_apply__(lambda e: f(num(e)))
+        if isinstance(x, EA):
+            return EA(np.frompyfunc(lambda q: S(f(num(lift(q)))), 1, 1)(x.a))
         if isinstance(x, A):
             if defined is not None:
                 Hooks.defined(defined(num(x.e)), f.__name__, x.dom)
@@ -69,6 +71,10 @@ def _ew2(f):
         k.pop("dtype", None)
         if k.get("out") is not None:
             raise Unsupported("out= argument")
+        if isinstance(x, EA) or isinstance(y, EA):
+            xa = x.a if isinstance(x, EA) else x
+            ya = y.a if isinstance(y, EA) else y
+            return EA(np.frompyfunc(lambda p, q: S(f(lift(p), lift(q))), 2, 1)(xa, ya))
         if isinstance(x, A):
             return x._bin(y, f)
         if isinstance(y, A):
@@ -85,6 +91,8 @@ def _asA(x, like: A):
 
 
 def m_where(c, *rest):
+    if isinstance(c, EA) and len(rest) == 0:
+        return np.where(_INTERP[0].concrete_mask(c))
     if len(rest) != 2:
         raise Unsupported("np.where with one argument on symbolic data")
     a, b = rest
@@ -110,6 +118,12 @@ def m_where(c, *rest):
 def _like(value):
     def h(x, *a, **k):
         v = value
+        if isinstance(x, EA):
+            if value is None:
+                v = a[0] if a else k.get("fill_value")
+            out = np.empty(x.shape, dtype=object)
+            out[...] = S(lift(v))
+            return EA(out)
         if value is None:
             v = a[0] if a else k.get("fill_value")
         if isinstance(x, A):
@@ -248,8 +262,12 @@ def m_isinstance(x, cls):
     return builtins.isinstance(x, cls)
 
 
+_INTERP = [None]
+
+
 def build_models(interp):
     M = {}
+    _INTERP[0] = interp
 
     def reg(fn, h, always=False):
         M[fn] = (always, h)
@@ -480,11 +498,21 @@ def build_models(interp):
                 axes, dom = _shape_to_axes(size)
                 if tuple(axes) != tuple(out.axes):
                     raise ShapeError("random draw of shape %s fed with %s" % (axes, out.axes))
-                out = A(out.axes, out.e, out.dom, origin=None)
+                if out.dom is sp.true and dom is not sp.true:
+                    out = A(out.axes, out.e, dom, origin=None)  # each surviving event keeps its own ghost random number
+                else:
+                    out = A(out.axes, out.e, out.dom, origin=None)
                 if dom != out.dom and not Hooks.domcheck(dom, out.dom, "size of random draw"):
                     raise ShapeError("random draw size does not match the fed random numbers")
             interp.rng_draws.append({"name": name, "kind": kind, "lo": lift(lo), "hi": lift(hi), "fed": True, "where": interp.where,
                                      "symbol": out.e if isinstance(out, (A, S)) else None})
+            return out
+        if isinstance(size, (int, np.integer)) or (isinstance(size, tuple) and all(isinstance(q, (int, np.integer)) for q in size)):
+            shp = (int(size),) if isinstance(size, (int, np.integer)) else tuple(int(q) for q in size)
+            out = EA.symbols(name, shp)
+            for q in out.a.flat:
+                interp.facts.append(sp.And(sp.Ge(q.e, lift(lo)), sp.Lt(q.e, lift(hi))))
+            interp.rng_draws.append({"name": name, "kind": kind, "lo": lift(lo), "hi": lift(hi), "axes": [], "dom": sp.true, "where": interp.where, "symbol": None, "shape": shp})
             return out
         if size is None:
             s = sp.Symbol(name, real=True)
